@@ -301,11 +301,6 @@ class MyPyAstVisitor:
         if getattr(node, "arguments", None) is not None:
             parameters = self._parse_parameter_data(node, function_id)
 
-            if self.type_var_types:
-                type_var_types = list(self.type_var_types)
-                # Sort for the snapshot tests
-                type_var_types.sort(key=lambda x: x.name)
-
         # Check docstring parameter types vs code parameter type hint
         for i, parameter in enumerate(parameters):
             code_type = parameter.type
@@ -333,6 +328,12 @@ class MyPyAstVisitor:
         # Create results and result docstrings
         result_docstrings = self.docstring_parser.get_result_documentation(node.fullname)
         results_code = self._parse_results(node, function_id, result_docstrings)
+
+        # The type variables of the parameters and of the results, e.g. "-> Callable[[T], T]"
+        if self.type_var_types:
+            type_var_types = list(self.type_var_types)
+            # Sort for the snapshot tests
+            type_var_types.sort(key=lambda x: x.name)
 
         # A single docstring entry with a tuple type documents all results of a function which returns a tuple
         documented_results: list[tuple[AbstractType | None, str]] = [(doc.type, doc.name) for doc in result_docstrings]
